@@ -511,6 +511,28 @@ impl Env {
         });
         let dir = verif_root().join("evidence");
         std::fs::create_dir_all(&dir).unwrap();
+        let mut ev = ev;
+        if std::env::var("VERIF_EVIDENCE_MERGE").is_ok() {
+            // a property served by two engines: the second run folds the first run's evidence in
+            if let Ok(old) = std::fs::read_to_string(dir.join(format!("{}.json", self.property))) {
+                if let Ok(old) = serde_json::from_str::<Value>(&old) {
+                    let add = |a: &Value, b: &Value| json!(a.as_f64().unwrap_or(0.0) + b.as_f64().unwrap_or(0.0));
+                    let (oc, nc) = (old["coverage"].clone(), ev["coverage"].clone());
+                    ev["coverage"]["evaluations"] = json!(oc["evaluations"].as_u64().unwrap_or(0) + nc["evaluations"].as_u64().unwrap_or(0));
+                    ev["coverage"]["distinct_nontrivial"] = json!(oc["distinct_nontrivial"].as_u64().unwrap_or(0) + nc["distinct_nontrivial"].as_u64().unwrap_or(0));
+                    ev["coverage"]["rule"] = json!(format!("{} || {}", oc["rule"].as_str().unwrap_or(""), nc["rule"].as_str().unwrap_or("")));
+                    let mut samples = oc["samples"].as_array().cloned().unwrap_or_default();
+                    samples.extend(nc["samples"].as_array().cloned().unwrap_or_default());
+                    ev["coverage"]["samples"] = json!(samples);
+                    ev["coverage"]["exhaustive"] = json!(false);
+                    let mut parts = oc["parts"].as_object().cloned().unwrap_or_default();
+                    parts.extend(nc["parts"].as_object().cloned().unwrap_or_default());
+                    ev["coverage"]["parts"] = Value::Object(parts);
+                    ev["wall_s"] = add(&old["wall_s"], &ev["wall_s"]);
+                    ev["violations"] = json!(old["violations"].as_i64().unwrap_or(0) + ev["violations"].as_i64().unwrap_or(0));
+                }
+            }
+        }
         std::fs::write(
             dir.join(format!("{}.json", self.property)),
             serde_json::to_string_pretty(&ev).unwrap(),
